@@ -96,10 +96,32 @@ def run_rust_statics():
                         or ty.startswith("[u8;") or ty.startswith("&[u8;"):
                     pass
                 else:
-                    unsure.append((rel, t.line, decl))
+                    unsure.append((rel, t.line, decl, ty))
             if t.k == "ident" and t.s in ("thread_local", "lazy_static") and i + 1 < n and toks[i + 1].s == "!":
                 bad.append((rel, t.line, t.s + "!"))
             i += 1
+    # statics of a crate-defined type: shared mutable state if that type opts into `Sync` by hand or wraps a cell
+    if unsure:
+        import re as _re
+        alltext = ""
+        for f in files:
+            try:
+                alltext += " ".join(t.s for t in rstok.tokenize(open(f, encoding="utf-8").read())
+                                    if t.k not in ("ws", "comment")).replace(": :", "::") + "\n"
+            except Exception:
+                pass
+        still = []
+        for rel, line, decl, ty in unsure:
+            head = _re.match(r"[&']*(?:static)?([A-Za-z_][A-Za-z0-9_]*)", ty.replace("'static", ""))
+            name = head.group(1) if head else ""
+            hand_sync = name and _re.search(r"unsafe impl (?:< [^>]* > )?(?:Sync|Send) for %s\b" % _re.escape(name), alltext)
+            wraps_cell = name and _re.search(r"struct %s\b[^;{]*[({][^;}]*\b(UnsafeCell|Cell|RefCell|Atomic[A-Z]\w*|Mutex|RwLock)\b"
+                                             % _re.escape(name), alltext)
+            if hand_sync or wraps_cell:
+                bad.append((rel, line, decl + ("  [type opts into Sync by `unsafe impl`]" if hand_sync else "  [type wraps a cell]")))
+            else:
+                still.append((rel, line, decl))
+        unsure = still
     res["obligations"] = len(files)
     badfiles = {b[0] for b in bad}
     res["discharged"] = len(files) - len(badfiles)
@@ -117,7 +139,7 @@ def run_rust_statics():
                                                    clause="no shared mutable state other than the feature-detection cache"))
     elif unsure:
         res["undecided_reason"] = "static item(s) of a type this scan cannot classify as immutable: " + "; ".join(
-            "%s:%d `%s`" % u for u in unsure[:5])
+            "%s:%d `%s`" % tuple(u[:3]) for u in unsure[:5])
     else:
         res["status"] = "pass"
     return res
